@@ -188,16 +188,30 @@ package parquet
 //@ func PageHeader
 //@   split isRC(r)
 //@   requires srcOrCounter(r)
-//@   modifies heap("parquet.readCounter"), srcPos, rfault
+//@   modifies heap("parquet.readCounter"), srcPos, rfault, vPage, vDefs
+//@   ghost-exit vPage := false ; vDefs := false
 //@   ensures res0 != nil && freshsince(res0)
 //@   ensures forall q in 0..allocbound(): cast("*parquet.readCounter", q).r == old(cast("*parquet.readCounter", q).r)
 //@   ensures[C10] err == nil ==> (rfault ==> old(rfault))
 //@   ensures[C08] err == nil ==> srcPos == old(srcPos) + thriftLen(srcB, old(srcPos)) && thriftLen(srcB, old(srcPos)) >= 1
 //@   ensures[C08] err == nil && old(isRC(r)) ==> asRC(r).n == old(asRC(r).n) + thriftLen(srcB, old(srcPos))
 
+// C18: nothing of a page is interpreted before its header has been validated
+//@ pred pageOK(ph) := ph.Type == 0 && ph.DataPageHeader != nil && ph.DataPageHeader.Encoding == 0
+//@ func supportedPage
+//@   requires ph != nil
+//@   safety[C18] nil-deref
+//@   modifies vPage, vDefs
+//@   ghost-exit vPage := res == nil ; vDefs := res == nil && defs
+//@   ensures[C18] res == nil ==> pageOK(ph)
+//@   ensures[C18] res == nil && defs ==> ph.DataPageHeader.DefinitionLevelEncoding == 3
+//@   ensures[C18] res == nil && reps ==> ph.DataPageHeader.RepetitionLevelEncoding == 3
+
 //@ func pageData
 //@   split isRC(r)
 //@   requires srcOrCounter(r) && ph != nil
+//@   requires[C18] vPage && pageOK(ph)
+//@   ensures[C18] err == nil ==> pg.Codec == 0 || pg.Codec == 1 || pg.Codec == 2
 //@   modifies obj(r), srcPos, rfault
 //@   ensures freshOrNil(res0)
 //@   ensures[C10] err == nil ==> (rfault ==> old(rfault))
@@ -208,13 +222,15 @@ package parquet
 
 //@ func readLevels
 //@   requires width <= 4 && dyn(in) == typeid("*bytes.Buffer") && payload(in) != 0
+//@   requires[C18] vDefs
 //@   modifies obj(in), rfault
 //@   ensures freshOrNil(res0)
 //@   ensures[C10] err == nil ==> (rfault ==> old(rfault))
 
 //@ func (*RequiredField).DoRead
 //@   requires external(r)
-//@   modifies heap("parquet.readCounter"), srcPos, rfault
+//@   safety[C18] nil-deref
+//@   modifies heap("parquet.readCounter"), srcPos, rfault, vPage, vDefs
 //@   ensures err == nil ==> dyn(res0) == typeid("*bytes.Buffer") && payload(res0) != 0 && freshsince(cast("*bytes.Buffer", res0))
 //@   ensures[C10] err == nil ==> (rfault ==> old(rfault))
 //@ loop (*RequiredField).DoRead#1
@@ -223,7 +239,8 @@ package parquet
 //@ func (*OptionalField).DoRead
 //@   requires f != nil && external(r)
 //@   free-requires f.MaxLevels.Def <= 15 && f.MaxLevels.Rep <= 15
-//@   modifies f, HA(f.Defs), HA(f.Reps), heap("parquet.readCounter"), srcPos, rfault
+//@   safety[C18] nil-deref
+//@   modifies f, HA(f.Defs), HA(f.Reps), heap("parquet.readCounter"), srcPos, rfault, vPage, vDefs
 //@   ensures err == nil ==> dyn(res0) == typeid("*bytes.Buffer") && payload(res0) != 0 && freshsince(cast("*bytes.Buffer", res0))
 //@   ensures[C10] err == nil ==> (rfault ==> old(rfault))
 //@   ensures[C08] err == nil ==> srcPos >= old(srcPos) + pg.Size
